@@ -319,6 +319,17 @@ def run(ctx):
     runs += 1
     if rg.status != 0 or not rg.stdout.startswith("inkfem v") or rg.files:
         viol("generate does not print a definition to standard output (exit %s, files %s)" % (rg.status, sorted(rg.files)), {"args": ["generate"]})
+    # outputs stand next to the input whatever its folder is called (the extension occurring earlier in the path as well)
+    if inputs:
+        text0 = inputs[0][1]
+        for folder in ("models.inkfem.d", "dir.inkfem", "a.inkfempre.b"):
+            path = folder + "/x.inkfem"
+            for args, want in ((["pre", path], {folder + "/x.inkfempre"}), (["solve", "-p", path], {folder + "/x.inkfempre", folder + "/x.inkfemsol"})):
+                r = cli.run(ctx, args, files={path: text0}, name="c13")
+                runs += 1
+                got = {k for k, v in r.files.items() if v is not None and k != path}
+                if r.status == 0 and got != want:
+                    viol("%s: files written %s, expected %s next to the input" % (" ".join(args), sorted(got), sorted(want)), {"args": args, "text": text0})
     # generate honours each of its flags, long and short, zero and negative loads included
     from . import C19
     for (gs, gl, gspan, gh, gload) in ((2, 1, "250", "120", "-30"), (1, 2, "400", "300", "0"), (3, 1, "0.5", "2.25", "12.5")):
